@@ -347,6 +347,13 @@ func locksOf(l [][2]*big.Int) []subtypes.LockedBalance {
 }
 
 func (c *Chain) keyPEM(k int64) string {
+	// 100+i / 200+i: key i with extra white space around its PEM text (the same key for the chain)
+	if k >= 200 && int(k-200) < len(c.Keys) {
+		return "  " + c.Keys[k-200].PEM + " \n"
+	}
+	if k >= 100 && int(k-100) < len(c.Keys) {
+		return c.Keys[k-100].PEM + "\n"
+	}
 	if k >= 0 && int(k) < len(c.Keys) {
 		return c.Keys[k].PEM
 	}
